@@ -215,6 +215,7 @@ struct FileCtx<'a> {
     warnings: Vec<String>,
     degraded: Vec<String>,
     extra_eff: HashMap<String, String>,
+    fname: String,
 }
 
 impl<'a> FileCtx<'a> {
@@ -947,6 +948,13 @@ impl<'a, 'b, 'ast> Visit<'ast> for BodyV<'a, 'b> {
             u.world = "none".into();
             u
         });
+        if self.nested_units.contains_key(&key) {
+            let r = range_of(f);
+            let l1 = line_of(self.fc.src, r.0);
+            let l2 = line_of(self.fc.src, r.1);
+            self.fc.edit_ord(r.0, r.0, format!("// @UNIT {} {}:{}-{}\n", u.id, self.fc.fname, l1, l2), "W.marker", -30);
+            self.fc.edit_ord(r.1, r.1, "\n// @ENDUNIT", "W.marker", 30);
+        }
         process_fn(self.fc, &f.attrs, &f.vis, &f.sig, Some(&f.block), &u, self.nested_units, &key, false);
     }
 
@@ -1294,17 +1302,30 @@ fn process_fn(
     }
 }
 
-/// identifiers used as single-segment paths (calls, values, types) inside a token tree
-fn collect_idents(ts: TokenStream, out: &mut HashSet<String>) {
-    for tt in ts {
-        match tt {
-            TokenTree::Ident(i) => {
-                out.insert(i.to_string());
+/// identifiers used as single-segment paths (calls, values, types) inside an item
+struct IdentScan<'o> {
+    out: &'o mut HashSet<String>,
+}
+impl<'o, 'ast> Visit<'ast> for IdentScan<'o> {
+    fn visit_path(&mut self, p: &'ast Path) {
+        if p.leading_colon.is_none() && p.segments.len() == 1 {
+            self.out.insert(p.segments[0].ident.to_string());
+        }
+        visit::visit_path(self, p);
+    }
+    fn visit_macro(&mut self, m: &'ast Macro) {
+        if let Ok(args) = m.parse_body_with(Punctuated::<Expr, Token![,]>::parse_terminated) {
+            for a in args.iter() {
+                self.visit_expr(a);
             }
-            TokenTree::Group(g) => collect_idents(g.stream(), out),
-            _ => {}
         }
     }
+}
+fn collect_idents_fn(f: &ItemFn, out: &mut HashSet<String>) {
+    IdentScan { out }.visit_item_fn(f);
+}
+fn collect_idents_method(f: &ImplItemFn, out: &mut HashSet<String>) {
+    IdentScan { out }.visit_impl_item_fn(f);
 }
 
 /// world mode a function body needs, judged by the effectful calls it contains
@@ -1501,7 +1522,7 @@ fn main() {
                 match item {
                     Item::Fn(f) => {
                         if units.contains_key(&format!("fn:{}", f.sig.ident)) {
-                            collect_idents(f.to_token_stream(), &mut seen);
+                            collect_idents_fn(f, &mut seen);
                         }
                     }
                     Item::Impl(im) => {
@@ -1509,7 +1530,7 @@ fn main() {
                         for ii in &im.items {
                             if let ImplItem::Fn(m) = ii {
                                 if units.contains_key(&format!("impl:{}/{}", key, m.sig.ident)) {
-                                    collect_idents(m.to_token_stream(), &mut seen);
+                                    collect_idents_method(m, &mut seen);
                                 }
                             }
                         }
@@ -1527,7 +1548,7 @@ fn main() {
                     if !units.contains_key(&format!("fn:{n}")) {
                         auto_names.push(n.clone());
                         let mut more = HashSet::new();
-                        collect_idents(f.to_token_stream(), &mut more);
+                        collect_idents_fn(f, &mut more);
                         work.extend(more.into_iter());
                     }
                 } else if top_vals.contains(&n) && !keep_items.contains(&n) {
@@ -1585,7 +1606,7 @@ fn main() {
                 }
             }
         }
-        let mut fc = FileCtx { cfg: &cfg, src: &src, edits: vec![], rule_counts: BTreeMap::new(), errors: vec![], warnings: vec![], degraded: vec![], extra_eff: extra_eff.clone() };
+        let mut fc = FileCtx { cfg: &cfg, src: &src, edits: vec![], rule_counts: BTreeMap::new(), errors: vec![], warnings: vec![], degraded: vec![], extra_eff: extra_eff.clone(), fname: fname.clone() };
         // segments to keep: (start, end, kind, name)
         let mut segs: Vec<(usize, usize, String, String)> = vec![];
         let mut found_units: HashSet<String> = HashSet::new();
